@@ -5,6 +5,7 @@ Property theorems only; helpers live in Gem/SpecProof.lean, Gem/RulesLemmas.lean
 import RosedVerif.Gem.SpecProof
 import RosedVerif.Gem.RulesLemmas
 import RosedVerif.Gen.Rules
+import RosedVerif.Gem.Corollaries
 namespace RosedVerif.Props
 open RosedVerif Cls Spec
 
@@ -88,5 +89,84 @@ example : split [prepend, extpict, extend, extend, zwj, extpict, ri, ri, ri] = [
 example : split [extend, zwj, spacing, cr, lf, control, extend] = [3, 5, 6, 7] := by decide
 -- Hangul syllable sequences
 example : split [l, l, v, t, t, lv, t, lvt, t, l] = [5, 7, 9, 10] := by decide
+
+/-! ### observational / named-corollary restatements -/
+
+
+/-- a Control, CR or LF that is not half of a CR LF pair is a cluster by itself, and CR LF is a
+cluster (never split, separated on both sides); `IsCluster cs a b`: `[a, b)` is a cluster of `cs` -/
+theorem C01_controls_alone (cs : List Cls) (i : Nat) (c : Cls) (hi : cs[i]? = some c) (hc : isCtl c) :
+    (¬ (c = cr ∧ cs[i + 1]? = some lf) → ¬ (c = lf ∧ ∃ k, i = k + 1 ∧ cs[k]? = some cr) →
+        IsCluster cs i (i + 1)) ∧
+    (c = cr → cs[i + 1]? = some lf → IsCluster cs i (i + 2)) :=
+  ⟨controls_alone cs i c hi hc, fun h h1 => crlf_cluster cs i (h ▸ hi) h1⟩
+
+/-- `L* (V | LV) V* T*`, `L* LVT T*`, `L+` are ONE cluster, for all repetition counts -/
+theorem C01_hangul_syllable (s : List Cls) (h : IsHangulSyllable s) : split s = [s.length] :=
+  hangul_syllable s h
+
+/-- a non-control base followed by any Extend / ZWJ / SpacingMark in any order is one cluster -/
+theorem C01_marks_attach (x : Cls) (marks : List Cls) (hx : ¬ isCtl x)
+    (hm : ∀ m ∈ marks, m = extend ∨ m = zwj ∨ m = spacing) : split (x :: marks) = [marks.length + 1] :=
+  marks_attach x marks hx hm
+
+/-- `Prepend^n x` (and with trailing marks) is one cluster for a non-control `x` -/
+theorem C01_prepend_attaches (n : Nat) (x : Cls) (hx : ¬ isCtl x) :
+    split (List.replicate n prepend ++ [x]) = [n + 1] := prepend_attaches n x hx
+
+theorem C01_prepend_attaches_marks (n : Nat) (x : Cls) (marks : List Cls) (hx : ¬ isCtl x)
+    (hm : ∀ m ∈ marks, m = extend ∨ m = zwj ∨ m = spacing) :
+    split (List.replicate n prepend ++ x :: marks) = [n + 1 + marks.length] :=
+  prepend_attaches_marks n x marks hx hm
+
+/-- ill-formed: marks without a base at the very start of the text are one cluster -/
+theorem C01_leading_marks (marks : List Cls) (hne : marks ≠ [])
+    (hm : ∀ m ∈ marks, m = extend ∨ m = zwj ∨ m = spacing) : split marks = [marks.length] :=
+  leading_marks marks hne hm
+
+/-- `ExtPict Extend^k ZWJ ExtPict` is one cluster for every `k`, and so is the iterated sequence
+`(ExtPict Extend* ZWJ)^m ExtPict` for every number of links and of Extend in each link -/
+theorem C01_emoji_zwj (k : Nat) (ks : List Nat) :
+    split ([extpict] ++ List.replicate k extend ++ [zwj, extpict]) = [k + 3] ∧
+    split (emojiSeq ks) = [(emojiSeq ks).length] := ⟨emoji_zwj k, emoji_zwj_seq ks⟩
+
+/-- two ZWJs in a row: a boundary before the following ExtPict, whatever precedes -/
+theorem C01_double_zwj_breaks :
+    split [extpict, zwj, zwj, extpict] = [3, 4] ∧
+    (∀ pre : List Cls, Boundary (pre ++ [zwj, zwj]) zwj extpict) ∧
+    (∀ (cs : List Cls) (i : Nat), cs[i]? = some zwj → cs[i + 1]? = some zwj →
+      cs[i + 2]? = some extpict → i + 2 ∈ split cs) :=
+  ⟨double_zwj_breaks, double_zwj_boundary, double_zwj_end⟩
+
+/-- a run of `n` regional indicators at the start of the text or after a non-RI: cluster ends
+`2, 4, …` and a final `n` when `n` is odd (`riEnds n`), i.e. `⌈n/2⌉` clusters; and in any continuation
+of the text the ends strictly inside the run are the even positions -/
+theorem C01_ri_run (p : List Cls) (hp : p = [] ∨ ∃ q x, p = q ++ [x] ∧ x ≠ ri) (n : Nat) :
+    split (List.replicate n ri) = riEnds n ∧
+    (split (p ++ List.replicate n ri)).filter (fun j => decide (p.length < j)) =
+      (riEnds n).map (· + p.length) ∧
+    riEnds n = (List.range (n / 2)).map (fun k => 2 * k + 2) ++ (if n % 2 = 1 then [n] else []) ∧
+    (riEnds n).length = (n + 1) / 2 ∧
+    (∀ (s : List Cls) (k : Nat), k + 1 < n →
+      (p.length + (k + 1) ∈ split (p ++ List.replicate n ri ++ s) ↔ (k + 1) % 2 = 0)) :=
+  ⟨ri_run_start n, ri_run_after p hp n, riEnds_eq n, riEnds_length n,
+    fun s k hk => ri_run_inside p s hp n k hk⟩
+
+/-- nothing else joined: two neighbours `r`, `nx` inside one cluster are joined by a context-free rule
+(`joins`: GB3, GB6–GB9b), by GB11 or by GB12/13; and conversely -/
+theorem C01_nothing_else_joined (p : List Cls) (r nx : Cls) :
+    ¬ Boundary (p ++ [r]) r nx ↔
+      (joins r nx = true ∨ (GB11ctx (p ++ [r]) ∧ nx = extpict) ∨ (GB1213ctx (p ++ [r]) ∧ nx = ri)) :=
+  no_boundary_iff p r nx
+
+theorem C01_nothing_else_joined_split (cs : List Cls) (i : Nat) (r nx : Cls) (h0 : cs[i]? = some r)
+    (h1 : cs[i + 1]? = some nx) (h : i + 1 ∉ split cs) :
+    joins r nx = true ∨ (GB11ctx (cs.take (i + 1)) ∧ nx = extpict) ∨
+      (GB1213ctx (cs.take (i + 1)) ∧ nx = ri) := joined_only_by_rule cs i r nx h0 h1 h
+
+/-- Other·Other, Other·ExtPict, ExtPict·ExtPict, Hangul·Other, … (`plainBreak`, a decidable table):
+always a boundary, whatever precedes -/
+theorem C01_plain_pairs_break (p : List Cls) (r nx : Cls) (h : plainBreak r nx = true) :
+    Boundary (p ++ [r]) r nx := boundary_of_plainBreak p r nx h
 
 end RosedVerif.Props
